@@ -1,4 +1,5 @@
 import AtsimModel.Model.PairTables
+import AtsimModel.Gen.Logic
 import Mathlib.Tactic.Ring
 import Mathlib.Tactic.FieldSimp
 import Mathlib.Tactic.Linarith
@@ -164,4 +165,32 @@ theorem C01_kernel_args (cut : Rat) (nr : Nat) (h : 1 ≤ nr) :
   kernel_unfold [k_lammps_args]
   push_cast [Nat.cast_sub h]
   kernel_close
+/-! ## The code itself: `Potential.energy`, `Potential.force`, `gradient`, `deriv`, `num_deriv` regenerated from the source
+
+`Atsim.Gen.Logic.potential_force / gradient_call / util_deriv / num_deriv` are produced by `translator/py2lean_logic.py` from `_potential.py` and `_util.py`
+on every run; the callables they are given are opaque (`evalFn`, `analyticDeriv`).  Together they say where the force column comes from, for EVERY callable:
+minus the callable's own `.deriv` when it offers one, otherwise minus the central difference of the callable's own values with the step the caller asked for. -/
+open Atsim.Gen.Logic in
+/-- **code tie**: the energy column is the callable's value -/
+theorem C01_code_energy (potentialFunction : Rat → Rat) (r : Rat) : potential_energy potentialFunction r = potentialFunction r := rfl
+
+open Atsim.Gen.Logic in
+/-- **code tie**: the force is MINUS what the derivative wrapper returns -/
+theorem C01_code_force (derivFunction : Rat → Rat) (r : Rat) : potential_force derivFunction r = - derivFunction r := rfl
+
+open Atsim.Gen.Logic in
+/-- **code tie**: the derivative wrapper built by `gradient(f, h)` uses `f.deriv` when `f` offers it, and otherwise the central difference of `f` ITSELF
+    over `[r - h/2, r + h/2]` with the step `h` it was built with (the model's `numDeriv`) -/
+theorem C01_code_gradient (evalFn analyticDeriv : Callable → Rat → Rat) (f : Callable) (h r : Rat) :
+    gradient_call evalFn analyticDeriv f h r = if f.has_deriv then analyticDeriv f r else numDeriv (evalFn f) r h := by
+  simp only [gradient_call, util_deriv, num_deriv, numDeriv]
+
+open Atsim.Gen.Logic in
+/-- hence: for a derivative-less callable that is a quadratic, the force the code tabulates is exactly minus its slope, for every step `h ≠ 0` -/
+theorem C01_code_force_quadratic (analyticDeriv : Callable → Rat → Rat) (f : Callable) (hf : f.has_deriv = false) (a b c r h : Rat) (hh : h ≠ 0) :
+    potential_force (gradient_call (fun _ x => a + b * x + c * x ^ 2) analyticDeriv f h) r = - (b + 2 * c * r) := by
+  rw [C01_code_force, C01_code_gradient]
+  simp only [hf, Bool.false_eq_true, if_false]
+  rw [C01_numderiv_quadratic a b c r h hh]
+
 end Atsim.C01
